@@ -64,3 +64,20 @@ fn k_i2osp2() {
   let zb = z.to_be_bytes();
   assert!(zb[0] == (z >> 8) as u8 && zb[1] == (z & 0xff) as u8);
 }
+
+/// size guards of the two bincode loaders (repository-owned logic of C15, checked under C09/C13):
+/// ground facts, no symbolic input.  An honest proof is 64 bytes, an honest public key over the full
+/// tag space is 32 + 8 + 256 * (1 + 32) bytes in bincode's fixed-int layout (ASSUMED: T-serde), so the
+/// guards must not be tighter than that; anything longer is refused before bincode sees it.
+#[kani::proof]
+#[kani::unwind(4)]
+fn k_ppo_size_guards() {
+  assert!(COMPRESSED_POINT_LEN == 32);
+  assert!(DIGEST_LEN == 64);
+  assert!(MAX_SERIALIZED_PROOF_SIZE >= 64);
+  assert!(MAX_SERIALIZED_PK_SIZE >= 32 + 8 + 256 * (1 + 32));
+  let big_proof = [0u8; MAX_SERIALIZED_PROOF_SIZE + 1];
+  assert!(matches!(ProofDLEQ::load_from_bincode(&big_proof), Err(PPRFError::SerializedDataTooBig)));
+  let big_pk = [0u8; MAX_SERIALIZED_PK_SIZE + 1];
+  assert!(matches!(ServerPublicKey::load_from_bincode(&big_pk), Err(PPRFError::SerializedDataTooBig)));
+}
